@@ -7,6 +7,9 @@
 pub static mut MODEL_REENTRANT: bool = false;
 /// Ghost: number of initialiser closures that were entered.
 pub static mut MODEL_INIT_RUNS: usize = 0;
+/// Harness callback invoked at the instant the cell becomes initialised (before `get_or_try_init`
+/// returns): any other thread may observe `get() == Some(..)` from this point on.
+pub static mut ON_INIT_DONE: Option<fn()> = None;
 /// Ghost: > 0 while an initialiser closure passed to `get_or_try_init` is running.
 pub static mut MODEL_IN_INIT: usize = 0;
 
@@ -37,7 +40,11 @@ pub mod sync {
             unsafe { super::MODEL_IN_INIT -= 1; }
             self.initializing.set(false);
             match r {
-                Ok(v) => { unsafe { *self.value.get() = Some(v); } Ok(self.get().unwrap()) }
+                Ok(v) => {
+                    unsafe { *self.value.get() = Some(v); }
+                    if let Some(h) = unsafe { super::ON_INIT_DONE } { h(); }
+                    Ok(self.get().unwrap())
+                }
                 Err(e) => Err(e),
             }
         }
